@@ -119,7 +119,7 @@ fn gen_store(r: &mut Rng) -> Vec<Res> {
     pool.push(Res { permission: 128, ..res("perm.txt", &[], "text/plain", b"p") });
     let mut v = vec![];
     for p in pool {
-        if r.chance(3, 4) {
+        if r.chance(5, 6) {
             v.push(p);
         }
     }
@@ -159,12 +159,12 @@ fn gen_store(r: &mut Rng) -> Vec<Res> {
 }
 
 const NAMES: &[&str] = &[
-    "noop.js", "noop.js", "noopjs", "noop", "noop.txt", "nooptext", "1x1.gif", "1x1-transparent.gif", "fn.js", "tmpl.js", "tmpl",
+    "noop.js", "noop.js", "noop.js", "noop.txt", "noop.txt", "1x1.gif", "1x1.gif", "style.css", "noopjs", "noopjs", "noop.js", "noop.js", "noopjs", "noop", "noop.txt", "nooptext", "1x1.gif", "1x1-transparent.gif", "fn.js", "tmpl.js", "tmpl",
     "perm.js", "permjs", "perm.txt", "missing.js", "unknown.bin", "style.css", "other", "sec", "second.txt", "bad.js", "latin1.js",
     "deps.txt", "deps.js", "badtmpl.js", "x", "y", "y:3", "self.txt", "selfalias", "NOOP.JS",
 ];
 const SUFFIXES: &[&str] = &[
-    "", "", "", ":10", ":-1", ":x", ":", ":+3", ":2147483648", ":2147483647", ":-2147483648", ":-2147483649", ":007", ":1 ",
+    "", "", "", "", "", ":10", ":10", ":-1", ":1", ":1", ":2", ":10", ":-1", ":x", ":", ":+3", ":2147483648", ":2147483647", ":-2147483648", ":-2147483649", ":007", ":1 ",
     ":1:2", ":+", ":-", ":1e3", ":\u{ff11}", ": 2147483648", ":0", ":5", ":5", ":-0", ":+-1", ":00000000000000000000012", ":99999999999999999999",
     ":3", ":3",
 ];
@@ -225,7 +225,7 @@ fn redirect_rule(r: &mut Rng) -> String {
 }
 
 fn gen_rules(r: &mut Rng) -> Vec<String> {
-    let n = r.range(1, 7);
+    let n = r.range(1, 5);
     let mut v: Vec<String> = (0..n).map(|_| redirect_rule(r)).collect();
     if r.chance(1, 3) {
         // the same rule under the other option / as an exception / with badfilter
@@ -315,6 +315,8 @@ struct Outcome {
     other_blocker_matches: bool,       // an active blocking rule that is not a pure redirect-rule matches
     rr_important_matches: bool,        // a matching redirect-rule + important rule (known class)
     shapes: Vec<(String, u32, bool, &'static str, bool)>, // line, mask, tagged, category, in redirects
+    /// (added rule, redirect, matched) of the same list plus one plain exception / blocking / important rule
+    variants: Vec<(String, Option<String>, bool)>,
 }
 
 fn active_tag(f: &NetworkFilter, tags: &[String]) -> bool {
@@ -433,7 +435,19 @@ fn eval(c: &Case, want_shapes: bool) -> Option<Outcome> {
         }
     }
 
+    let mut variants = vec![];
+    for extra in [format!("@@||{}^", req.hostname), format!("||{}^", req.hostname), format!("||{}^$important", req.hostname)] {
+        let mut rules2 = c.rules.clone();
+        rules2.push(extra.clone());
+        let mut e2 = Engine::from_rules_parametrised(rules2.iter(), Default::default(), true, c.optimize);
+        e2.use_resources(c.store.iter().map(|x| x.to_resource()));
+        e2.use_tags(&tags);
+        let r2 = e2.check_network_request(&req);
+        variants.push((extra, r2.redirect, r2.matched));
+    }
+
     Some(Outcome {
+        variants,
         supported: req.is_supported,
         matching,
         scan_equals_delivery,
@@ -537,6 +551,21 @@ fn oracle(c: &Case, o: &Outcome) -> Option<(Option<&'static str>, String)> {
     if !allowed.contains(&o.got_redirect) {
         return Some((None, format!("redirect {:?} but the specification allows {:?}", o.got_redirect, allowed)));
     }
+    // the redirect does not depend on the blocking side: adding a plain exception, a plain blocking
+    // rule or an $important rule for the request's host changes `matched` at most.  (Ties between
+    // different resources at the top priority are exempt: an added rule may reorder buckets.)
+    if allowed.len() == 1 {
+        for (extra, red, _) in &o.variants {
+            if red != &o.got_redirect {
+                return Some((None, format!("adding {:?} changed the redirect from {:?} to {:?}", extra, o.got_redirect, red)));
+            }
+        }
+    }
+    if o.supported {
+        if o.variants[0].2 && !o.got_important {
+            return Some((None, format!("still blocked after adding the plain exception {:?} although no important rule blocks", o.variants[0].0)));
+        }
+    }
     if !o.supported {
         if o.got_matched {
             return Some((None, "unsupported request reported as matched".into()));
@@ -590,10 +619,11 @@ fn main() {
     let mut r = Rng::new(a.seed);
     let mut cs = Cases::new(&a.out, "Generated C13_Model");
     let mut sm = Summary::default();
-    sm.rule = "random lists of 1-8 redirect / redirect-rule rules and redirect exceptions over 31 resource names x 29 priority suffixes (negative, equal, signed, overflowing, malformed), with type/domain/party/important/tag/badfilter/generichide options, mixed with plain blocking rules, plain exceptions and $important rules; resource stores drawn from 10 resources (aliases, gif/binary, fn/javascript, template, two permissioned) plus colliding, invalid-base64, non-UTF-8 and dependency-carrying ones in random order; requests of all type strings on 4 hosts (incl. an unsupported scheme); non-trivial = at least one redirect rule matches the request".into();
+    sm.rule = "random lists of 1-6 redirect / redirect-rule rules and redirect exceptions over 31 resource names x 29 priority suffixes (weighted towards loadable names and well-formed priorities) (negative, equal, signed, overflowing, malformed), with type/domain/party/important/tag/badfilter/generichide options, mixed with plain blocking rules, plain exceptions and $important rules; resource stores drawn from 10 resources (aliases, gif/binary, fn/javascript, template, two permissioned) plus colliding, invalid-base64, non-UTF-8 and dependency-carrying ones in random order; requests of all type strings on 4 hosts (incl. an unsupported scheme); non-trivial = at least one redirect rule matches the request".into();
     let n = 1500 * a.scale;
     let mut shape_seen: BTreeSet<(u32, bool)> = BTreeSet::new();
-    for i in 0..n {
+    let mut all: Vec<Case> = vec![];
+    for _ in 0..n {
         let rules = gen_rules(&mut r);
         let url = if r.chance(1, 5) { gen::url_for(&mut r, &rules[0]) } else { gen_url(&mut r) };
         // never an empty source: "no source + domain= rule" is the C01 finding F2, not a C13 matter
@@ -604,7 +634,40 @@ fn main() {
                 tags.push(t.to_string());
             }
         }
-        let c = Case { rules, store: gen_store(&mut r), tags, url, source, ty: gen::request_type(&mut r).to_string(), optimize: r.chance(2, 3) };
+        all.push(Case { rules, store: gen_store(&mut r), tags, url, source, ty: gen::request_type(&mut r).to_string(), optimize: r.chance(2, 3) });
+    }
+    // exhaustive sweep: every subset of 8 rules on one host x resource stores (x types, thorough)
+    let universe = [
+        "||foo.com^$redirect=noop.js:1",
+        "||foo.com^$redirect-rule=noop.txt:1",
+        "||foo.com^$redirect-rule=nooptext:2",
+        "||foo.com^$redirect=1x1.gif",
+        "@@||foo.com^$redirect-rule=noop.js",
+        "@@||foo.com^$redirect=noop.txt:5",
+        "||foo.com^$redirect-rule=perm.js:9",
+        "||foo.com^$redirect=missing.js:-1",
+    ];
+    let full: Vec<Res> = vec![
+        res("noop.js", &["noopjs"], "application/javascript", b"(function(){})()"),
+        res("noop.txt", &["nooptext"], "text/plain", b""),
+        res("1x1.gif", &[], "image/gif", &[0x47, 0x49, 0x46]),
+        Res { permission: 1, ..res("perm.js", &[], "application/javascript", b"p()") },
+    ];
+    let stores: Vec<Vec<Res>> = vec![full.clone(), full[..1].to_vec(), full[1..].to_vec()];
+    let types: &[&str] = if a.scale > 1 { &["script", "image", "document", "xhr"] } else { &["script"] };
+    for mask in 0..256u32 {
+        for (si, st) in stores.iter().enumerate() {
+            if a.scale == 1 && si == 2 {
+                continue;
+            }
+            for ty in types {
+                let rules: Vec<String> = universe.iter().enumerate().filter(|(i, _)| mask & (1 << i) != 0).map(|(_, l)| l.to_string()).collect();
+                all.push(Case { rules, store: st.clone(), tags: vec![], url: "https://foo.com/x.js".into(), source: "https://example.com/".into(), ty: ty.to_string(), optimize: mask % 2 == 0 });
+            }
+        }
+    }
+    sm.extra.insert("exhaustive_sweep".into(), json!(format!("all 256 subsets of {} rules on one host x {} stores x {} types", universe.len(), if a.scale > 1 { 3 } else { 2 }, types.len())));
+    for (i, c) in all.into_iter().enumerate() {
         if !c.url.is_ascii() || c.url.contains('*') || c.url.starts_with("ws") {
             cs.stat("skipped_url_outside_domain");
             continue;
@@ -613,6 +676,9 @@ fn main() {
         sm.oracle_evaluations += 1;
         if !o.scan_equals_delivery {
             cs.stat("scan_differs_from_bucket_lookup");
+            if std::env::var("C13_DEBUG").is_ok() {
+                eprintln!("SCANDIFF {}", c.json());
+            }
         }
         if let Some((class, what)) = oracle(&c, &o) {
             sm.failure(class, &what, c.json());
@@ -626,6 +692,9 @@ fn main() {
         }
         if o.matching.iter().any(|m| m.0) {
             cs.stat("redirect_exception_matching");
+        }
+        if reference(o.supported, &o.matching, &c.store).len() > 1 {
+            cs.stat("tie_between_resources_at_top_priority");
         }
         let expr = format!(
             "ostr_eqb (v_redirect (check_verdict {} (mk_block false false false false) (from_resources {}) {})) {}",
